@@ -69,6 +69,10 @@ func c02Details(i int) []proto.Message {
 	return nil
 }
 
+var c02TrailerKeys = []string{"X-A", "X-B", "X-Own-Trailer", "X-Empty", "X-Zz"}
+
+func c02TrailerValue(i int) string { return fmt.Sprintf("trailer-%d", i) }
+
 var c02Metas = []http.Header{
 	{},
 	{"X-A": {"v1"}},
@@ -101,6 +105,10 @@ type c02Case struct {
 	// Chain (with Wrapped): how the coded error sits in the chain: "" single %w,
 	// "join" errors.Join(coded, cleanupErr), "multi" fmt.Errorf("%w: %w", other, coded).
 	Chain string `json:"chain,omitempty"`
+	// Trailers: before failing, the handler sets this many response trailers
+	// under keys the error's metadata uses too (X-A, X-B, X-C-Bin, X-Empty) plus
+	// one of its own; both the trailers and the error's metadata must arrive.
+	Trailers int `json:"trailers,omitempty"`
 }
 
 func (k c02Case) key() string {
@@ -113,6 +121,9 @@ func (k c02Case) key() string {
 	}
 	if k.Wrapped {
 		real += "/wrapped" + k.Chain
+	}
+	if k.Trailers > 0 {
+		real += fmt.Sprintf("/trailers%d", k.Trailers)
 	}
 	return fmt.Sprintf("%s/code%d/msg%d/det%d/meta%d/sent%d/icept=%v/cause%d%s", k.Cfg, k.Code, k.Msg, k.Details, k.Meta, k.Sent, k.ByIcept, k.Cause, real)
 }
@@ -221,6 +232,9 @@ func c02Check(c *ev.Collector, k c02Case) {
 				return err
 			}
 		}
+		for i := 0; i < k.Trailers && i < len(c02TrailerKeys); i++ {
+			s.ResponseTrailer().Set(c02TrailerKeys[i], c02TrailerValue(i))
+		}
 		if k.ByIcept {
 			return nil
 		}
@@ -316,6 +330,40 @@ func c02Check(c *ev.Collector, k c02Case) {
 				bad = true
 				viol("same-metadata", "missing", "error metadata: %s", msg)
 			}
+			if k.Trailers > 0 && !k.ByIcept {
+				// what the handler set as response trailers arrives too: in the error's
+				// metadata or in the call's response trailers
+				seen := ce.Meta().Clone()
+				mergeInto(seen, res.Trailer)
+				for i := 0; i < k.Trailers && i < len(c02TrailerKeys); i++ {
+					found := false
+					for _, v := range seen.Values(c02TrailerKeys[i]) {
+						found = found || v == c02TrailerValue(i)
+					}
+					if !found {
+						bad = true
+						viol("same-metadata", "trailer-lost", "response trailer %s: %q set by the handler before it failed is in neither the error's metadata nor the response trailers (%q)", c02TrailerKeys[i], c02TrailerValue(i), seen.Values(c02TrailerKeys[i]))
+					}
+				}
+				// and nothing appears under a key that nobody set
+				for key, vs := range seen {
+					for _, v := range vs {
+						if strings.HasPrefix(v, "trailer-") || v == "v1" || v == "w1" {
+							okKey := false
+							for i := 0; i < k.Trailers && i < len(c02TrailerKeys); i++ {
+								okKey = okKey || (c02TrailerKeys[i] == key && v == c02TrailerValue(i))
+							}
+							for _, w := range c02Metas[k.Meta].Values(key) {
+								okKey = okKey || w == v
+							}
+							if !okKey {
+								bad = true
+								viol("same-metadata", "foreign-value", "value %q appears under %s, where neither the handler's trailers nor the error's metadata put it", v, key)
+							}
+						}
+					}
+				}
+			}
 		}
 	}
 	// messages sent before the error still arrive (server-streaming kinds)
@@ -379,10 +427,10 @@ func c02Cases(thorough bool) []c02Case {
 								for meta := range c02Metas {
 									for _, sent := range sents {
 										for _, ic := range []bool{false, true} {
-											out = append(out, c02Case{cfg, code, msg, det, meta, sent, ic, 0, false, 0, false, ""})
+											out = append(out, c02Case{cfg, code, msg, det, meta, sent, ic, 0, false, 0, false, "", 0})
 											if code != 0 && msg < 3 && det < 2 {
 												for cause := 1; cause <= 3; cause++ {
-													out = append(out, c02Case{cfg, code, msg, det, meta, sent, ic, cause, false, 0, false, ""})
+													out = append(out, c02Case{cfg, code, msg, det, meta, sent, ic, cause, false, 0, false, "", 0})
 												}
 											}
 										}
@@ -395,13 +443,13 @@ func c02Cases(thorough bool) []c02Case {
 				}
 				for code := 0; code <= 16; code++ {
 					for msg := range c02Messages[:c02LongMsg] {
-						out = append(out, c02Case{cfg, code, msg, 1, 1, 0, false, 0, false, 0, false, ""})
+						out = append(out, c02Case{cfg, code, msg, 1, 1, 0, false, 0, false, 0, false, "", 0})
 					}
 					// coded errors whose cause chain ends in a context error or io.EOF keep their own code
 					if code != 0 {
 						for cause := 1; cause <= 3; cause++ {
 							for _, sent := range sents {
-								out = append(out, c02Case{cfg, code, 0, 1, 1, sent, false, cause, false, 0, false, ""})
+								out = append(out, c02Case{cfg, code, 0, 1, 1, sent, false, cause, false, 0, false, "", 0})
 							}
 						}
 					}
@@ -410,7 +458,17 @@ func c02Cases(thorough bool) []c02Case {
 					for meta := range c02Metas {
 						for _, sent := range sents {
 							for _, ic := range []bool{false, true} {
-								out = append(out, c02Case{cfg, 10, 2, det, meta, sent, ic, 0, false, 0, false, ""})
+								out = append(out, c02Case{cfg, 10, 2, det, meta, sent, ic, 0, false, 0, false, "", 0})
+							}
+						}
+					}
+				}
+				// the handler has set response trailers under the keys of the error's metadata
+				if kind.ServerStreams() {
+					for meta := range c02Metas {
+						for _, sent := range sents {
+							for tr := 1; tr <= len(c02TrailerKeys); tr++ {
+								out = append(out, c02Case{Cfg: cfg, Code: 10, Msg: 1, Details: 1, Meta: meta, Sent: sent, Trailers: tr})
 							}
 						}
 					}
